@@ -641,6 +641,12 @@ func main() {
 		"GenStrSer.v":       genStrSer(),
 		"GenRyuText.v":      genRyuText(),
 		"GenFastCsv.v":      genFastCsv(),
+		"GenQFrameOps.v":    genQFrameOps(),
+		"GenExprTree.v":     genExprTree(),
+		"GenIoCsv.v":        genIoCsv(),
+		"GenSqlIO.v":        genSqlIO(),
+		"GenAggr.v":         genAggr(),
+		"GenEnumFac.v":      genEnumFac(),
 	}
 	// Files are written even when problems were found so that the directed search can still build: every
 	// definition that could not be derived from the current source is taken from the golden copy (the output
